@@ -14,13 +14,13 @@ PROP = dict(
                "result is checked: HoldError exactly for the snaps whose allowance is exhausted, all requested snaps dropped on refusal, returned remaining time equal "
                "to the minimum allowance left. Engine 'snapctl': the same model and checks, but holds and proceeds are issued by running "
                "`snapctl refresh --hold` / `--proceed` (ctlcmd.Run) inside a gate-auto-refresh hook context followed by the hook handler's Done, by the handler's "
-               "Error path (failing hook = hold), and by a hook that does nothing, in a world of two gating apps, their base and the kernel with generated "
+               "Error path (failing hook = hold request unless the hook already asked for a hold, granted or refused), and by a hook that does nothing — as whole hook runs (sequence of snapctl calls, then exit status) — in a world of two gating apps, their base and the kernel with generated "
                "refresh-candidate sets; this binds the call sites (zero duration, level auto-refresh, proceed deferred to the end of the hook) to the bounds.",
     level_note="Sampled, not exhaustive. State-level: operations call the gating API / ctlcmd / hook handler directly (no task runner, no real hook process); a "
                "refresh is 'gating reset, then last-refresh time set' performed back to back. Trusts snapstate.MockTimeNow as the only clock of the gating code. "
                "In the snapctl engine the set of affecting snaps is taken from snapstate.AffectingSnapsForAffectedByRefreshCandidates (an input, not judged).",
     rule="holds: rapid generates (last-refresh ages, operation list of hold/proceed/syshold/sysunhold/refresh/prune/remove/install/advance/tobound); "
-         "snapctl: (ages, list of candidates/snapctl-hold/hook-error/snapctl-proceed/hook-noaction/hold-then-proceed/proceed-then-hold/refresh/advance/tobound); "
+         "snapctl: (ages, list of candidates/hook-run{snapctl calls none|hold|proceed|hold,proceed|proceed,hold|hold,hold|proceed,hold,proceed x hook exit 0|non-zero; whether a --hold is granted or refused follows from the history; multi-run fragments 'hold, advance around 48 h, ask again'}/snapctl-hold/hook-error/snapctl-proceed/hook-noaction/hold-then-proceed/proceed-then-hold/refresh/advance/tobound), HeldSnaps judged after every snapctl call and after every hook run; "
          "non-trivial = the history has >= 2 successful holds of one (held, holder) pair separated by a clock advance, or a hold attempted past a bound "
          "(refused), or a refresh of the held snap between two holds of one pair; distinct by hash of the case",
     assumptions=["gating snaps only issue duration 0 and level auto-refresh (hookstate/ctlcmd/refresh.go:hold, hookstate/hooks.go:gateAutoRefreshHookHandler.Error; exercised by the snapctl engine); explicit durations are outside the quantifier",
